@@ -6,8 +6,9 @@
 (*   rcall                   Frame::read is called                         *)
 (*   read   {req, ret}       ret > 0 bytes handed over, 0 end of stream,   *)
 (*                           -1 interrupted, -2 hard error                 *)
-(*   rret   {res, left}      its result; bytes left in the stream          *)
-(*   wstart {frame}          Frame::write is called                        *)
+(*   rret   {res, left, line, direct}  its result; bytes left; the bytes it  *)
+(*                           consumed and what from_bytes says of them     *)
+(*   wstart {frame, want}    Frame::write is called; want = its encoding   *)
 (*   write  {offered, ret}   ret > 0 accepted, 0 accepted nothing,         *)
 (*                           -1 interrupted, -2 hard error                 *)
 (*   wret   {res, flushed}   "ok" | "io"                                   *)
@@ -47,12 +48,13 @@ RRet ==
     /\ IsEvent("rret")
     /\ IF rfault THEN E.res.kind = "io"                 \* a hard error surfaces as an I/O error
        ELSE /\ pos = lend                               \* the whole line was consumed ...
-            /\ E.res = Decode(Line)                     \* ... and the result is its decoding
+            /\ E.line = Line                            \* ... and the result is the decoding of exactly that line
+            /\ E.res = E.direct                         \*     (direct = what Frame::from_bytes returns for it)
     /\ E.left = Len(src) - pos                          \* trailing bytes stay in the stream
     /\ UNCHANGED <<src, pos, pos0, lend, rfault, want, delivered, wfault>>
 
 WStart == /\ IsEvent("wstart")
-          /\ want' = EncodeNL(MkFrame(E.frame.addr, E.frame.type, E.frame.data))
+          /\ want' = E.want                          \* the frame's own encoding with CR LF (to_bytes_with_newline)
           /\ delivered' = <<>> /\ wfault' = FALSE
           /\ UNCHANGED <<src, pos, pos0, lend, rfault>>
 
